@@ -118,6 +118,14 @@ Step(e) ==
             \* a timeout the API cannot represent: it must be refused, not truncated
             /\ Flag(e, IF e.hang THEN {"NeverReturned"} ELSE IF IsOk(e) THEN {"HugeTimeoutAccepted"} ELSE {})
             /\ UNCHANGED <<obj, interest>>
+      [] e.op = "poll_reuse" ->
+            \* two ppoll calls with ONE TimeSpec passed by shared reference: each call must honour the
+            \* timeout the caller wrote into it, and the caller's value must not change
+            /\ Flag(e, (IF \E k \in 1..Len(e.calls) : ~e.calls[k].ok THEN {"PollFailed"} ELSE {})
+                       \cup (IF e.calls[1].ok /\ e.calls[1].n = 0 /\ e.calls[1].us < e.timeout * 1000 THEN {"EarlyTimeout"} ELSE {})
+                       \cup (IF e.calls[2].ok /\ e.calls[2].n = 0 /\ e.calls[2].us < e.timeout * 1000 THEN {"EarlyTimeoutOnReuse"} ELSE {})
+                       \cup (IF e.ts_after_us # e.timeout * 1000 THEN {"TimeoutArgumentModified"} ELSE {}))
+            /\ UNCHANGED <<obj, interest>>
       [] e.op = "poll" -> PollStep(e, FALSE)
       [] e.op = "poll_intr" -> PollStep(e, TRUE)
 
